@@ -181,6 +181,7 @@ Proof.
   - eapply env_step_G; eauto.
   - eapply env_step_G; eauto.
   - eapply env_step_G; eauto.
+  - eapply env_step_G; eauto.
 Qed.
 
 Theorem run_acts_G c acts : forall s s', G s -> run_acts c s acts = Some s' -> G s'.
